@@ -198,18 +198,21 @@ func finalAssignments(p *an.Prog, f *ssa.Function, named *types.Named, fname str
 				}
 				old, seen := state[nx]
 				if seen {
-					// meet = intersection
-					changed := false
-					for k := range old {
-						if _, ok := ns[k]; !ok {
-							delete(old, k)
-							changed = true
+					// meet: what both ways of arriving guarantee — common atoms, and for boolean tests the disjunction of
+					// one atom from each side (`!IsBinding` on one path, `!warm` on the other gives `!IsBinding || !warm`)
+					merged := meetAtoms(old, ns)
+					if len(merged) == len(old) {
+						same := true
+						for k := range merged {
+							if _, ok := old[k]; !ok {
+								same = false
+							}
+						}
+						if same {
+							continue
 						}
 					}
-					if !changed {
-						continue
-					}
-					ns = old
+					ns = merged
 				}
 				state[nx] = ns
 				cp := atomSet{}
@@ -222,14 +225,10 @@ func finalAssignments(p *an.Prog, f *ssa.Function, named *types.Named, fname str
 		if len(finals) == 0 {
 			continue
 		}
-		// atoms common to every way of reaching a sink
+		// what every way of reaching a sink guarantees
 		common := finals[0]
 		for _, fs := range finals[1:] {
-			for k := range common {
-				if _, ok := fs[k]; !ok {
-					delete(common, k)
-				}
-			}
+			common = meetAtoms(common, fs)
 		}
 		var base []an.Atom
 		for _, a := range common {
@@ -241,6 +240,72 @@ func finalAssignments(p *an.Prog, f *ssa.Function, named *types.Named, fname str
 			}
 		} else {
 			out = append(out, effAssign{Val: nil, Atoms: base, At: d})
+		}
+	}
+	return out
+}
+
+// meetAtoms: the facts two sets of atoms have in common. Besides identical atoms, two plain boolean tests that differ
+// give their disjunction (bounded to three alternatives), so that `if a && b {…}` left over either failing test is
+// known to satisfy `!a || !b` after the join.
+func meetAtoms(x, y map[string]an.Atom) map[string]an.Atom {
+	out := map[string]an.Atom{}
+	alts := func(a an.Atom) []an.Atom {
+		if len(a.Or) > 0 {
+			return a.Or
+		}
+		return []an.Atom{a}
+	}
+	boolOnly := func(as []an.Atom) bool {
+		for _, a := range as {
+			if a.Op != token.ILLEGAL || a.X == nil {
+				return false
+			}
+			if _, isCall := a.X.(*ssa.Call); !isCall {
+				return false
+			}
+		}
+		return true
+	}
+	for kx, ax := range x {
+		if _, ok := y[kx]; ok {
+			out[kx] = ax
+			continue
+		}
+		ex := alts(ax)
+		if !boolOnly(ex) {
+			continue
+		}
+		for ky, ay := range y {
+			if _, ok := x[ky]; ok {
+				continue
+			}
+			ey := alts(ay)
+			if !boolOnly(ey) {
+				continue
+			}
+			seen := map[string]bool{}
+			var u []an.Atom
+			for _, a := range append(append([]an.Atom{}, ex...), ey...) {
+				if !seen[a.Text] {
+					seen[a.Text] = true
+					u = append(u, a)
+				}
+			}
+			if len(u) > 3 {
+				continue
+			}
+			for i := 1; i < len(u); i++ {
+				for j := i; j > 0 && u[j].Text < u[j-1].Text; j-- {
+					u[j], u[j-1] = u[j-1], u[j]
+				}
+			}
+			var ts []string
+			for _, a := range u {
+				ts = append(ts, a.Text)
+			}
+			at := an.Atom{Or: u, Text: strings.Join(ts, " || ")}
+			out[atomKey(at)] = at
 		}
 	}
 	return out
@@ -556,7 +621,7 @@ func ruleEveryRelevantOutputCredited(c *report.Ctx) {
 // ruleReservationCacheOwnership (C02): a reservation leaves the used-coin cache only by expiry or by the per-outpoint release.
 func ruleReservationCacheOwnership(c *report.Ctx) {
 	p := c.P
-	c.Rule("reservation-cache-ownership", "the used-coin cache (WalletManager.usedCache) is only filled per outpoint (Set), queried (Get) and released per outpoint (Delete of an outpoint's key); nothing empties or replaces it wholesale (Flush, DeleteExpired, a new cache stored into the field): a draft's reservation must outlive wallet switches and other requests until it expires or its own transaction is sent or cleared", 3)
+	c.Rule("reservation-cache-ownership", "the used-coin cache (WalletManager.usedCache) is only filled per outpoint (Set), queried (Get) and released per outpoint (Delete of an outpoint's key); nothing empties or replaces it wholesale (Flush, DeleteExpired, a new cache stored into the field): a draft's reservation must outlive wallet switches and other requests until it expires or its own transaction is sent or cleared", 2)
 	wm := p.Type(pkgWallet, "WalletManager")
 	if wm == nil {
 		c.Lost("masswallet.WalletManager")
@@ -678,7 +743,7 @@ func ruleMasterKeyWipeAfterSuccess(c *report.Ctx, G map[*ssa.Function]bool) {
 // rulePassphraseHashedWhole (C03, C05): the passphrase check looks at every byte the caller gave.
 func rulePassphraseHashedWhole(c *report.Ctx) {
 	p := c.P
-	c.Rule("passphrase-hashed-whole", "in the passphrase checks (AddrManager.checkPassword, SecretKey.DeriveKey/deriveKey and the salted-hash producers) the passphrase bytes reach the hash / KDF whole: they are never copied into a fixed-size buffer and never sliced to a constant bound — a truncating copy makes every passphrase that merely starts with the right one pass the unlocked-state comparison", 3)
+	c.Rule("passphrase-hashed-whole", "in the passphrase checks (AddrManager.checkPassword, SecretKey.DeriveKey/deriveKey and the salted-hash producers) the passphrase bytes reach the hash / KDF whole: they are never copied into a fixed-size buffer and never sliced to a constant bound — a truncating copy makes every passphrase that merely starts with the right one pass the unlocked-state comparison", 2)
 	var fs []*ssa.Function
 	for _, spec := range [][3]string{{pkgKeystore, "AddrManager", "checkPassword"}, {pkgSnacl, "SecretKey", "DeriveKey"}, {pkgSnacl, "SecretKey", "deriveKey"}} {
 		if f := fn(c, spec[0], spec[1], spec[2]); f != nil {
@@ -805,7 +870,7 @@ func ruleMemoryTipFollowsPersistedTip(c *report.Ctx) {
 		if pk := an.FuncPkg(f); pk == nil || pk.Path() != pkgWallet {
 			continue
 		}
-		stores := fieldStoresAny(f, nh, "bestBlock")
+		stores := fieldStores(f, nh, "bestBlock") // the whole struct or one of its fields
 		if len(stores) == 0 {
 			continue
 		}
@@ -927,7 +992,7 @@ func ruleMinedCreditShortcutBlockOnly(c *report.Ctx) {
 // ruleGapOracleIsTheChain (C12): the "has this address history?" oracle handed to the keystore answers from the chain.
 func ruleGapOracleIsTheChain(c *report.Ctx) {
 	p := c.P
-	c.Rule("gap-oracle-is-the-chain", "the used-address oracle the wallet hands to KeystoreManager.NextAddresses / ImportKeystore / ImportKeystoreWithMnemonic is ChainFetcher.CheckScriptHashUsed itself, or a function whose every answer is the result of a CheckScriptHashUsed call made in that invocation: an answer remembered from an earlier call (a cache, a flag) survives the reorganisation that removed the payment, so the gap-limit refusal is bypassed and a later restore stops before the addresses issued past the limit", 3)
+	c.Rule("gap-oracle-is-the-chain", "the used-address oracle the wallet hands to KeystoreManager.NextAddresses / ImportKeystore / ImportKeystoreWithMnemonic is ChainFetcher.CheckScriptHashUsed itself, or a function whose every answer is the result of a CheckScriptHashUsed call made in that invocation: an answer remembered from an earlier call (a cache, a flag) survives the reorganisation that removed the payment, so the gap-limit refusal is bypassed and a later restore stops before the addresses issued past the limit", 1)
 	var sinks []*ssa.Function
 	for _, n := range []string{"NextAddresses", "ImportKeystore", "ImportKeystoreWithMnemonic"} {
 		if f := fn(c, pkgKeystore, "KeystoreManager", n); f != nil {
@@ -1031,7 +1096,7 @@ func ruleGapOracleIsTheChain(c *report.Ctx) {
 // ruleSentenceJudgedByWords (C13): whether a mnemonic is accepted depends on its words, not on the bytes between them.
 func ruleSentenceJudgedByWords(c *report.Ctx) {
 	p := c.P
-	c.Rule("sentence-judged-by-words", "in the keystore functions that tokenise a mnemonic sentence (their string parameter reaches strings.Fields) the raw sentence is only tokenised, handed on, or hashed: its length is not measured and it is not compared, indexed or sliced — acceptance must depend on the word sequence, so a valid sentence with extra blanks, line breaks or padding is not rejected by a byte-length or prefix test", 3)
+	c.Rule("sentence-judged-by-words", "in the keystore functions that tokenise a mnemonic sentence (their string parameter reaches strings.Fields) the raw sentence is only tokenised, handed on, or hashed: its length is not measured and it is not compared, indexed or sliced — acceptance must depend on the word sequence, so a valid sentence with extra blanks, line breaks or padding is not rejected by a byte-length or prefix test", 1)
 	fields := p.Fn("strings", "", "Fields")
 	if fields == nil {
 		c.Lost("strings.Fields")
@@ -1182,7 +1247,7 @@ func ruleStakingPeriodFromRequest(c *report.Ctx) {
 // transaction that reads the coins.
 func ruleHeightFromSameReadTransaction(c *report.Ctx) {
 	p := c.P
-	c.Rule("height-from-same-transaction", "the synced height handed to UtxoStore.WalletBalance / ScriptAddressBalance / ScriptAddressUnspents is the Height of what SyncStore.SyncedTo returned for the same transaction value the coins are read with: a height taken from anywhere else (the handler's in-memory tip, an earlier transaction) pairs the coins of one committed state with the tip of another — after a commit that moved the tip by more than one block an immature coin is counted spendable", 4)
+	c.Rule("height-from-same-transaction", "the synced height handed to UtxoStore.WalletBalance / ScriptAddressBalance / ScriptAddressUnspents is the Height of what SyncStore.SyncedTo returned for the same transaction value the coins are read with: a height taken from anywhere else (the handler's in-memory tip, an earlier transaction) pairs the coins of one committed state with the tip of another — after a commit that moved the tip by more than one block an immature coin is counted spendable", 2)
 	syncedTo := fn(c, pkgTxmgr, "SyncStore", "SyncedTo")
 	if syncedTo == nil {
 		return
